@@ -63,14 +63,14 @@ theorem C12_window_protected {c0 : Int} {evs : List QEv} {q' : Queue} {c' : Int}
 /-- Every queued answer is on the wire in time: after any reachable state, an `add` executed at `c`
 is followed — whatever happens next, **registry changes included** (`QEv.remove`: `async_remove_answers`, the repair of D5,
 called when a service is unregistered) — by a batch containing each of its records at some `s ∈ [c, c + agg + addl]`, unless
-the run stops before `c + agg + addl` or the record is withdrawn by such a change (`withdrawnIn post r`: then it must *not*
-go out any more, C08).  Records of other services are not affected by a withdrawal (`Queue.remove_keeps`). -/
+the run stops before `c + agg + addl` or the record is withdrawn by such a change **before `c + agg + addl`**
+(`withdrawnIn post r D`: a `remove` event naming it at a time `≤ D`; then it must *not* go out any more, C08).  Records of other services are not affected by a withdrawal (`Queue.remove_keeps`). -/
 theorem C12_on_wire {p : QP} (hp : p.ok) {c0 : Int} {pre : List QEv} {q1 : Queue} {c1 : Int} {outs1 : List (Int × Dict)}
     (hpre : Run p {} c0 pre q1 c1 outs1)
     {c now draw : Int} {answers : Dict} {post : List QEv} {q' : Queue} {c' : Int} {outs : List (Int × Dict)}
     (hrun : Run p q1 c1 (.add c now draw answers :: post) q' c' outs) :
     ∀ r ∈ answers.keys,
-      (∃ o ∈ outs, r ∈ o.2.keys ∧ c ≤ o.1 ∧ o.1 ≤ c + p.agg + p.addl) ∨ c' ≤ c + p.agg + p.addl ∨ withdrawnIn post r := by
+      (∃ o ∈ outs, r ∈ o.2.keys ∧ c ≤ o.1 ∧ o.1 ≤ c + p.agg + p.addl) ∨ c' ≤ c + p.agg + p.addl ∨ withdrawnIn post r (c + p.agg + p.addl) := by
   intro r hr
   have hI1 := (hpre.safe hp [] (QInv.init p c0)).1
   cases hrun with
@@ -89,26 +89,26 @@ theorem C12_on_wire_aggregate {c0 : Int} {pre : List QEv} {q1 : Queue} {c1 : Int
     (hpre : Run outQP {} c0 pre q1 c1 outs1)
     {c now draw : Int} {answers : Dict} {post : List QEv} {q' : Queue} {c' : Int} {outs : List (Int × Dict)}
     (hrun : Run outQP q1 c1 (.add c now draw answers :: post) q' c' outs) :
-    ∀ r ∈ answers.keys, (∃ o ∈ outs, r ∈ o.2.keys ∧ c ≤ o.1 ∧ o.1 ≤ c + 500) ∨ c' ≤ c + 500 ∨ withdrawnIn post r := by
+    ∀ r ∈ answers.keys, (∃ o ∈ outs, r ∈ o.2.keys ∧ c ≤ o.1 ∧ o.1 ≤ c + 500) ∨ c' ≤ c + 500 ∨ withdrawnIn post r (c + 500) := by
   intro r hr
   have e1 := outQP_addl; have e2 := outQP_agg
   rcases C12_on_wire outQP_ok hpre hrun r hr with ⟨o, ho, h1, h2, h3⟩ | h | h
   · exact Or.inl ⟨o, ho, h1, h2, by omega⟩
   · exact Or.inr (Or.inl (by omega))
-  · exact Or.inr (Or.inr h)
+  · exact Or.inr (Or.inr (withdrawnIn_mono h (by omega)))
 
 /-- ... within 1.2 s for the protected queue -/
 theorem C12_on_wire_protected {c0 : Int} {pre : List QEv} {q1 : Queue} {c1 : Int} {outs1 : List (Int × Dict)}
     (hpre : Run delayQP {} c0 pre q1 c1 outs1)
     {c now draw : Int} {answers : Dict} {post : List QEv} {q' : Queue} {c' : Int} {outs : List (Int × Dict)}
     (hrun : Run delayQP q1 c1 (.add c now draw answers :: post) q' c' outs) :
-    ∀ r ∈ answers.keys, (∃ o ∈ outs, r ∈ o.2.keys ∧ c ≤ o.1 ∧ o.1 ≤ c + 1200) ∨ c' ≤ c + 1200 ∨ withdrawnIn post r := by
+    ∀ r ∈ answers.keys, (∃ o ∈ outs, r ∈ o.2.keys ∧ c ≤ o.1 ∧ o.1 ≤ c + 1200) ∨ c' ≤ c + 1200 ∨ withdrawnIn post r (c + 1200) := by
   intro r hr
   have e1 := delayQP_addl; have e2 := delayQP_agg
   rcases C12_on_wire delayQP_ok hpre hrun r hr with ⟨o, ho, h1, h2, h3⟩ | h | h
   · exact Or.inl ⟨o, ho, h1, h2, by omega⟩
   · exact Or.inr (Or.inl (by omega))
-  · exact Or.inr (Or.inr h)
+  · exact Or.inr (Or.inr (withdrawnIn_mono h (by omega)))
 
 /-- the invariant behind both: in every reachable state there is exactly one armed timer iff the
 queue is non-empty, and it is due inside the head group's window and not in the past -/
@@ -430,7 +430,7 @@ theorem C12_aggregated_on_wire {h : Host} {clock : Int} {pkts : List Pkt} {addr 
     (hclock : c1 ≤ clock) (hstamp : ∀ first, pkts.head? = some first → first.now ≤ clock)
     (hdue : ∀ d, h.outQ.timer = some d → clock ≤ d)
     {post : List QEv} {q' : Queue} {c' : Int} {outs : List (Int × Dict)} (hpost : Run outQP r.host.outQ clock post q' c' outs) :
-    (∃ o ∈ outs, rid ∈ o.2.keys ∧ clock ≤ o.1 ∧ o.1 ≤ clock + 500) ∨ c' ≤ clock + 500 ∨ withdrawnIn post rid := by
+    (∃ o ∈ outs, rid ∈ o.2.keys ∧ clock ≤ o.1 ∧ o.1 ≤ clock + 500) ∨ c' ≤ clock + 500 ∨ withdrawnIn post rid (clock + 500) := by
   obtain ⟨first, hf, _, _, hq1, _⟩ := assemble_spec hs hqa
   obtain ⟨d, hd1, hd2, heq⟩ := hq1.2 (Dict.isEmpty_false_of_mem hr)
   rw [heq] at hpost
@@ -448,7 +448,7 @@ theorem C12_protected_on_wire {h : Host} {clock : Int} {pkts : List Pkt} {addr p
     (hclock : c1 ≤ clock) (hstamp : ∀ first, pkts.head? = some first → first.now ≤ clock)
     (hdue : ∀ d, h.delayQ.timer = some d → clock ≤ d)
     {post : List QEv} {q' : Queue} {c' : Int} {outs : List (Int × Dict)} (hpost : Run delayQP r.host.delayQ clock post q' c' outs) :
-    (∃ o ∈ outs, rid ∈ o.2.keys ∧ clock ≤ o.1 ∧ o.1 ≤ clock + 1200) ∨ c' ≤ clock + 1200 ∨ withdrawnIn post rid := by
+    (∃ o ∈ outs, rid ∈ o.2.keys ∧ clock ≤ o.1 ∧ o.1 ≤ clock + 1200) ∨ c' ≤ clock + 1200 ∨ withdrawnIn post rid (clock + 1200) := by
   obtain ⟨first, hf, _, _, _, hq2⟩ := assemble_spec hs hqa
   obtain ⟨d, hd1, hd2, heq⟩ := hq2.2 (Dict.isEmpty_false_of_mem hr)
   rw [heq] at hpost
@@ -683,7 +683,8 @@ theorem C12_host_one_sec_timing_partial {c0 : Int} {evs : List Ev} {h' : Host} {
 a block assemble a query and `async_response` classify `x` as aggregate (`d = false`) or seen-in-the-last-second
 (`d = true`).  Then in *every* continuation of the run, `x` is multicast by that queue's timer callback at some
 `s ∈ [c, c + 500]` (`[c, c + 1200]`), `c` the block's time — or the run ends before that, or a later block of the run withdraws
-`x` from that queue (`Ev.qremove`: `async_remove_answers`, its service was unregistered).  No hypothesis about the block
+`x` from that queue **no later than `c + 500` (`c + 1200`)** (`Ev.qremove`: `async_remove_answers`, its service was unregistered —
+that the block stems from an unregistration is the harness's tie, not the model's).  No hypothesis about the block
 beyond the loop facts that `HRun` carries; registry changes may occur anywhere in the run. -/
 theorem C12_host_on_wire (d : Bool) {hO hD : List AddRec} {clock : Int} {h : Host} (hI : HInv hO hD clock h)
     {e : Ev} {es : List Ev} {h' : Host} {c' : Int} {r : StepOut} {tr : List (Ev × StepOut)}
@@ -692,7 +693,7 @@ theorem C12_host_on_wire (d : Bool) {hO hD : List AddRec} {clock : Int} {h : Hos
     {x : RecId} (hx : x ∈ (if d then qa.mcastLast else qa.mcastAgg).keys) :
     (∃ p ∈ tr, ∃ s b, p.1 = .qfire s d ∧ Out.ofMcast b ∈ p.2.outs ∧ x ∈ b.keys ∧ e.time ≤ s ∧
         s ≤ e.time + (if d then 1200 else 500)) ∨
-      c' ≤ e.time + (if d then 1200 else 500) ∨ withdrawnInTrace d tr x := by
+      c' ≤ e.time + (if d then 1200 else 500) ∨ withdrawnInTrace d tr x (e.time + (if d then 1200 else 500)) := by
   cases hr with
   | cons hax hs hrest =>
     obtain ⟨a, hd, hperf⟩ := step_decide hs
@@ -749,8 +750,10 @@ per *cause* and for *answers* only: `_has_mcast_record_in_last_second` is asked 
 additionals of an answer are never tested, and a group already pending in a queue is not re-examined when the record is seen in
 the meantime.  Decision: these are **findings** (deviations from the sentence), not readings —
 `C12:additional-remulticast-within-1s` and `C12:pending-batch-remulticast-within-1s` in `known_findings.json`; each has a
-`…_refuted` witness below, and `C12_host_answer_cause` is the partial statement: every multicast *answer* has a causing query of
-the run, and it is with respect to *that* query (and sightings before its first packet: D12b) that the one-second rule holds. -/
+`…_refuted` witness below.  What IS proved of the sentence is `C12_one_sec_wire_partial`: the one-second distance for a record
+multicast *as an answer*, *from the protected queue*, measured from sightings that precede the *first packet of the query that queued
+it*.  `C12_host_answer_cause` only says that every multicast answer has a causing query and lies in that cause's window; for the
+"now" and "aggregate" routes no distance from any sighting follows from it (that is where D12 and the pending-batch finding live). -/
 
 /-- each block of a run comes with the state it started from, in which the model accepts it -/
 theorem HRun.mem_states {h : Host} {c : Int} {evs : List Ev} {h' : Host} {c' : Int} {tr : List (Ev × StepOut)}
@@ -775,16 +778,13 @@ theorem mcast_mem_immediateOuts {qa : QA} {addr port id nq : Nat} {us : Bool} {a
     · cases h
     · simpa using h
 
-/-- **`_partial`: every multicast answer has a cause, and the timing rules hold with respect to that cause.**  In a run from the
-initial state, whenever a block multicasts a record `x` **as an answer**, some query assembled in the run put it there:
-either this very block assembled it and `async_response` classified `x` "now" (`C12_immediate`: a probe, or not seen in the second
-before that query's last packet and a single SRV/A/AAAA/NSEC question; or the QU rule, D12), or an earlier block did and classified
-`x` aggregate (then `first + 20 ≤ m ≤ c + 500`) or seen-in-the-last-second (then `first + 1020 ≤ m ≤ c + 1200`, hence at least one
-second after every sighting that precedes that query's first packet — `C12_host_one_sec_timing_partial`).
-Hypotheses that make this weaker than the English, each a listed finding: the record travels **as an answer** (additionals are not
-covered: `C12_one_sec_additional_refuted`), and the rule is relative to the **causing** query (a later query that saw the record
-in between does not hold the earlier batch back: `C12_one_sec_pending_batch_refuted`); sightings between the first and the last
-packet of the causing query: D12b. -/
+/-- **Every multicast answer has a cause, and lies in that cause's window.**  In a run from the initial state, whenever a block
+multicasts a record `x` **as an answer**, some query assembled in the run put it there: either this very block assembled it and
+`async_response` put `x` into `_mcast_now` — **nothing about sightings follows from this disjunct**: `_mcast_now` is filled by probes,
+by the QU route (quarter-TTL rule: D12) and by the single-question rule — or an earlier block did and classified `x` aggregate (then
+`first + 20 ≤ m ≤ c + 500`; no distance from a sighting either: the pending-batch finding) or seen-in-the-last-second (then
+`first + 1020 ≤ m ≤ c + 1200`).  This is a statement about *windows per cause*; the one-second distance is
+`C12_one_sec_wire_partial`. -/
 theorem C12_host_answer_cause {c0 : Int} {evs : List Ev} {h' : Host} {c' : Int} {tr : List (Ev × StepOut)}
     (hr : HRun {} c0 evs h' c' tr) :
     ∀ p ∈ tr, ∀ ans adds, Out.mcast ans adds ∈ p.2.outs → ∀ x ∈ ans,
@@ -822,6 +822,21 @@ theorem C12_host_answer_cause {c0 : Int} {evs : List Ev} {h' : Host} {c' : Int} 
       have heq := mcast_mem_immediateOuts ho
       have hans : ans = qa.mcastNow.keys := by simp only [Out.ofMcast, Out.mcast.injEq] at heq; exact heq.1
       exact ⟨(st, p.1, p.2), hst, pkts, port, first, qa, ⟨⟨lis, addr, hd⟩, hf, hqa⟩, Or.inl ⟨rfl, rfl, hans ▸ hx⟩⟩
+
+/-- **`_partial` of `C12_one_sec_wire_full`** — what is proved of "not multicast again until at least one second after that
+sighting": a record `x` multicast **as an answer** by the **protected queue's** callback at `m` was queued by an assembled query of
+the run that classified it "seen in the last second" (`x ∈ qa.mcastLast`), and `m` is at least one second after **every sighting
+that precedes that query's first packet** (`created ≤ first.now`), and at most 1.2 s after the query was handled.  Each restriction
+is needed (none is claimed to be the exact complement of a finding — the hypotheses are sufficient conditions):
+additionals — `C12_one_sec_additional_refuted`; transmissions caused by another, earlier query (aggregate or protected group already
+pending) — `C12_one_sec_pending_batch_refuted`; sightings between the first and the last packet of the causing query — D12b,
+`C12_one_sec_timing_refuted`; the "now" route for QU questions — D12, `C12_one_sec_qu_refuted`. -/
+theorem C12_one_sec_wire_partial {c0 : Int} {evs : List Ev} {h' : Host} {c' : Int} {tr : List (Ev × StepOut)}
+    (hr : HRun {} c0 evs h' c' tr) (created : Int) :
+    ∀ p ∈ tr, ∀ s, p.1 = .qfire s true → ∀ o ∈ p.2.outs, ∃ b, o = Out.ofMcast b ∧
+      ∀ x ∈ b.keys, ∃ st ∈ traceStates {} tr, ∃ pkts port first qa, Assembled st.1 st.2.1 pkts port first qa ∧
+        x ∈ qa.mcastLast.keys ∧ (created ≤ first.now → created + 1000 ≤ s) ∧ s ≤ st.2.1.time + 1200 :=
+  C12_host_one_sec_timing_partial hr created
 
 /-- not a packet of a truncated train and not a probe: in a run of such events every assembly is the one packet at hand -/
 def Ev.plain : Ev → Bool
@@ -937,8 +952,9 @@ theorem sum_nq_zero {l : List Pkt} (h : ∀ p ∈ l, p.nq = 0) : (l.map (·.nq))
     rw [h x List.mem_cons_self, ih (fun p hp => h p (List.mem_cons_of_mem _ hp))]
 
 /-- **`_partial`**: under `TailNoQuestions` the first-packet test *is* the whole-train test, so `C12_immediate` (with
-`nq := first.nq`, `q0 := first.q0type`, as `asyncResponse` calls it) states the sentence for the train.  What is missing is exactly
-the finding `C12:train-first-packet-question-rule`: trains in which a later packet carries a question. -/
+`nq := first.nq`, `q0 := first.q0type`, as `asyncResponse` calls it) states the sentence for the train.  `TailNoQuestions` is a
+sufficient condition, broader than the complement of the finding `C12:train-first-packet-question-rule` (it also excludes trains with
+a question in a later packet for which both tests happen to agree). -/
 theorem C12_train_question_rule_partial (pkts : List Pkt) (first : Pkt) (hf : pkts.head? = some first) (ht : TailNoQuestions pkts) :
     ((first.nq = 1 ∧ immediateType first.q0type) ↔ (trainNq pkts = 1 ∧ ∃ t, trainQ0 pkts = some t ∧ immediateType t)) := by
   cases pkts with
@@ -990,7 +1006,8 @@ def C12_jitter_from_arrival_full : Prop :=
 
 /-- **`_partial`**: the bound holds from the *stamp* (`C12_window_aggregate`), hence from the arrival whenever stamp and handling time
 coincide — every single-packet query.  (A train left to its hold timer is handled 400–500 ms after its last packet, so its reply is
-trivially later than 20 ms after the arrival: `C12_tc_hold`.)  Missing: exactly `C12:train-reply-before-jitter`. -/
+trivially later than 20 ms after the arrival: `C12_tc_hold`.)  The hypothesis `a.now = a.clock` is sufficient, not the complement of
+the finding `C12:train-reply-before-jitter`: it excludes every stale stamp, also those whose reply does wait 20 ms. -/
 theorem C12_jitter_from_arrival_partial {c0 : Int} {evs : List QEv} {q' : Queue} {c' : Int} {outs : List (Int × Dict)}
     (h : Run outQP {} c0 evs q' c' outs) :
     ∀ o ∈ outs, ∀ r ∈ o.2.keys, ∃ a ∈ addsOf evs, r ∈ a.keys ∧ (a.now = a.clock → a.clock + 20 ≤ o.1) ∧ a.now + 20 ≤ o.1 ∧ o.1 ≤ a.clock + 500 := by
